@@ -182,7 +182,44 @@ class Interp:
                 c.attrs[st.target.id] = v
             elif isinstance(st, ast.Expr):
                 continue
+        self._module_level_patches(c, module)
         return c
+
+    def _module_level_patches(self, c, module):
+        """Module-level statements after the class definition that add to the class: ``Cls.name = value``,
+        ``setattr(Cls, name, value)``, also inside module-level ``for``/``if`` blocks (executed in a module frame, so
+        functions defined there see the module's variables as they are at call time)."""
+        m = self.src.modules.get(module)
+        if m is None:
+            return
+        cname = c.name
+
+        def touches(st):
+            for n in ast.walk(st):
+                if isinstance(n, ast.Assign):
+                    for t in n.targets:
+                        if isinstance(t, ast.Attribute) and isinstance(t.value, ast.Name) and t.value.id == cname:
+                            return True
+                if isinstance(n, ast.Call) and isinstance(n.func, ast.Name) and n.func.id == "setattr" and n.args \
+                        and isinstance(n.args[0], ast.Name) and n.args[0].id == cname:
+                    return True
+            return False
+        after = False
+        todo = []
+        for st in m.tree.body:
+            if st is c.node:
+                after = True
+                continue
+            if after and isinstance(st, (ast.Assign, ast.Expr, ast.For, ast.If)) and touches(st):
+                todo.append(st)
+        if not todo:
+            return
+        frame = Frame(self, module, module)
+        for st in todo:
+            try:
+                self.exec_stmt(st, frame, sp.true)
+            except (AnalysisError, SymRaise) as exc:
+                raise AnalysisError(f"module-level code that extends class {c.qual} is not understood: {exc}")
 
     def instantiate(self, cls: ClassVal, args, kwargs, name=None, open_attrs=None, sym_kw=None):
         if getattr(cls, "ntuple", None):
@@ -277,6 +314,11 @@ class Interp:
         return sp.Symbol(f"{obj.name}.{name}", **kw)
 
     def setattr(self, obj, name, value):
+        if isinstance(obj, Closure):
+            if not hasattr(obj, "fattrs"):
+                obj.fattrs = {}
+            obj.fattrs[name] = value        # function attributes (__name__, __doc__, ...)
+            return
         if isinstance(obj, SymObj):
             if obj.cls is not None:
                 cv = obj.cls.lookup(name)
